@@ -30,7 +30,8 @@ Conventions (all value-preserving in exact arithmetic; they are the translator's
     point / per persistence pair); `pers[i]` in an elementwise loop is `pers`.
   * `a > b` is written `b < a` and `a >= b` is written `b <= a` (the models assume only `<`/`<=`).
   * `np.maximum/np.minimum` -> `max/min`; `np.sqrt/np.exp/np.log/np.expm1/erfc/np.abs/...` -> the function
-    parameter or model helper named in the target's table; `np.pi` -> the parameter `pi`; `np.array(x)` -> `x`.
+    parameter or model helper named in the target's table; `np.pi` -> the parameter `pi`; `np.array(x)` and
+    `np.array(x, dtype=float)` -> `x` (conversion to floating point is the identity of the exact-arithmetic model).
   * float literals: per target either as written (`2.0`, class `OfScientific`) or, where the model uses numerals,
     the integer they denote (`1.0` -> `1`); a float literal that is not integral is then a Shape error.
   * `e ** 2` on a difference of points -> `e * e` (heat only); every other `**` -> the binary parameter `pow`.
@@ -415,7 +416,11 @@ class Tr:
                     raise Shape("argument of %s is not a scalar or a named list" % name)
             return S("%s %s" % (h[1], " ".join(a.t if a.k == "S" else a.base for a in args)), 90)
         if node.keywords:
-            raise Shape("keyword arguments in a call of %s" % name)
+            # `np.array(x, dtype=float)`: a conversion to floating point is the identity of the exact-arithmetic model
+            ok = (kind == "id" and len(node.keywords) == 1 and node.keywords[0].arg == "dtype"
+                  and ast.unparse(node.keywords[0].value) in ("float", "np.float64"))
+            if not ok:
+                raise Shape("keyword arguments in a call of %s" % name)
         args = [self.expr(a) for a in node.args]
         if kind == "fn":                          # scalar function, applied elementwise
             if len(args) != h[2]:
@@ -919,7 +924,8 @@ TARGETS = [
          calls={"all": ("all",), "np.sum": ("sum",), "np.log": ("fn", "log", 1), "len": ("len",)},
          yield_=("append", "ps", {("Exception", "A bar is born after dying"): "PersimVerif.Entropy.Err.bornAfterDying"}),
          lit="nat",
-         skeleton="if isinstance(dgms, list) == False:\n    dgms = [dgms]\nif keep_inf == False:\n"
+         skeleton="if isinstance(dgms, list) == False:\n    dgms = [dgms]\n"
+                  "dgms = [np.asarray(dgm, dtype=float) for dgm in dgms]\nif keep_inf == False:\n"
                   "    dgms = [dgm[dgm[:, 1] != np.inf] for dgm in dgms]\nif keep_inf == True:\n    if val_inf != None:\n"
                   "        dgms = [np.where(dgm == np.inf, val_inf, dgm) for dgm in dgms]\n    else:\n"
                   "        raise Exception('Remember: You need to provide a value to infinity bars if you want to keep them.')\n"
@@ -952,11 +958,11 @@ TARGETS = [
          calls={"np.dot": ("dot",), "sorted": ("listfn", "PersimVerif.Sliced.sort", 1, "list"),
                 "cityblock": ("listfn", "PersimVerif.Sliced.cityblock", 2, "scalar")},
          yield_=("aug", "sw"), lit="nat", pylists=True, defaults=[("M", "50")],
-         skeleton="diag_theta = np.array([np.cos(0.25 * np.pi), np.sin(0.25 * np.pi)], dtype=np.float32)\n...\n...\n"
+         skeleton="diag_theta = np.array([np.cos(0.25 * np.pi), np.sin(0.25 * np.pi)])\n...\n...\n"
                   "if len(l_theta1) != PD1.shape[0] or len(l_theta2) != PD2.shape[0]:\n"
                   "    raise ValueError('The projected points and origin do not match')\n...\n...\nsw = 0\ntheta = 0.5\n"
                   "step = 1.0 / M\nfor i in range(M):\n"
-                  "    l_theta = np.array([np.cos(theta * np.pi), np.sin(theta * np.pi)], dtype=np.float32)\n    ...\n    ...\n"
+                  "    l_theta = np.array([np.cos(theta * np.pi), np.sin(theta * np.pi)])\n    ...\n    ...\n"
                   "    ...\n    theta += step\nreturn sw",
          skeleton_select=["l_theta1", "l_theta2", "PD_delta1", "PD_delta2", "V1", "V2", "sw+="],
          obligations=[("src_slice_summand_eq_model", "(dir : α × α) (step : α) (PD1 D1 PD2 D2 : List (α × α))",
@@ -1217,7 +1223,7 @@ def header(key):
         "    fused into one `List.map`;\n"
         "  * `a > b` is written `b < a`, `a >= b` is written `b ≤ a`; `np.maximum/np.minimum` are `max/min`;\n"
         "  * `np.sqrt/np.exp/np.log/np.expm1/erfc`, `**` (as `pow`), `np.pi` and calls of other functions of the same file are\n"
-        "    explicit parameters; `np.abs`, `sorted`, `cityblock` are the model's helpers named in the text; `np.array(x)` is `x`;\n"
+        "    explicit parameters; `np.abs`, `sorted`, `cityblock` are the model's helpers named in the text; `np.array(x[, dtype=float])` is `x`;\n"
         "  * float literals are written as in the source where the model has `OfScientific` (`2.0`), otherwise as the numeral\n"
         "    they denote (`1.0` ↦ `1`); `e ** 2` on a difference of points is `e * e`; unary `+e` is `e`; `flag == True` is `flag`;\n"
         "  * a 2-vector (row `A[i, 0:2]`, `[e] * 2`) is a pair, `A[j, 1::-1]` swaps it, pair arithmetic is componentwise,\n"
@@ -1336,10 +1342,19 @@ def broken_obligations(ctx, prop_files):
             if not m:
                 continue
             ln = min(int(m.group(1)), len(src)) - 1
-            while ln >= 0 and not re.match(r"\s*(theorem|def)\s+([\w.']+)", src[ln]):
-                ln -= 1
-            if ln < 0:
+            decl = re.compile(r"\s*(theorem|def)\s+([\w.']+)")
+            # declarations are blocks separated by blank lines (a doc comment belongs to the block it opens): nearest
+            # declaration keyword at or above the error line inside its block, else the first one below
+            k = ln
+            while k >= 0 and src[k].strip() and not decl.match(src[k]):
+                k -= 1
+            if k < 0 or not decl.match(src[k]):
+                k = ln
+                while k < len(src) and src[k].strip() and not decl.match(src[k]):
+                    k += 1
+            if k < 0 or k >= len(src) or not decl.match(src[k]):
                 continue
+            ln = k
             kind, name = re.match(r"\s*(theorem|def)\s+([\w.']+)", src[ln]).groups()
             names = [name]
             if kind == "def":                      # the obligations that follow it, up to the end of its section
